@@ -26,6 +26,10 @@ def check(ctx: Ctx, col: Collector, tier: str) -> None:
     col.spec("C13.EXAMPLE-LINES", "the code lines of each example appear line for line: only the prompt marker of a line is rewritten", "specialisation of the example loop over prompt kinds", floor=2)
     col.spec("C13.ACCUMULATE", "no documentation section is dropped: what a getter collects over the sections of a docstring (description text, example lines) is accumulated, "
              "never overwritten by a later section", "loop-carried dependence of the variables a section loop updates and the getter returns", floor=4)
+    col.spec("C13.RESULT-DOC-NAME", "an @result text is attached to the result it documents: generated result names are drawn for every result, in order, as in the signature",
+             "per-iteration effects of the result loop of _create_sds_docstring over (named?, described?)", floor=4)
+    col.spec("C13.SECTION-KINDS", "the text of a parameter / attribute is looked up in every docstring section that can document it", "section kinds consulted by _get_matching_docstrings against "
+             "the members of griffe's DocstringSectionKind; no early exit of the section search", floor=3)
     col.spec("C13.COMMENT-PARTS", "description, @param and @result lines of an element are rendered from that element's own documentation", "provenance of the holes of _create_sds_docstring", floor=3)
 
     pm = repo.module(DOCPARSER)
@@ -251,6 +255,60 @@ def check(ctx: Ctx, col: Collector, tier: str) -> None:
                                  "the search stops at the first top-level string statement; other statements leave the docstring untouched" if okk else "loop shape differs",
                                  *([] if okk else ["the module docstring is not the first top-level string: a later bare string (e.g. an attribute docstring) replaces the module description"]))
 
+    # ------------------------------------------------------------------ SECTION-KINDS
+    mfi = pci.methods["_get_matching_docstrings"]
+    col.touched(mfi)
+    used = {n.attr for n in ast.walk(mfi.node) if isinstance(n, ast.Attribute) and isinstance(n.value, ast.Name) and n.value.id == "DocstringSectionKind"}
+    try:
+        import importlib.util
+        from pathlib import Path
+        spec = importlib.util.find_spec("_griffe")
+        enum_src = (Path(list(spec.submodule_search_locations)[0]) / "enumerations.py").read_text()
+        members = set(re.findall(r"^\s+(\w+)\s*=\s*\"[\w ]+\"", enum_src[enum_src.index("class DocstringSectionKind"):enum_src.index("class ", enum_src.index("class DocstringSectionKind") + 10)], re.M))
+    except Exception as e:  # noqa: BLE001
+        raise AnalysisError(f"griffe's DocstringSectionKind not found: {e}") from e
+    for role, pat in (("param", "parameters"), ("attr", "attributes")):
+        want = {m for m in members if pat in m}
+        key = f"{DOCPARSER}::{DP}._get_matching_docstrings::kinds::{role}"
+        if not want:
+            raise AnalysisError(f"no DocstringSectionKind member for {pat}")
+        missing = sorted(want - used)
+        if missing:
+            col.bad("C13.SECTION-KINDS", key, repo.loc(DOCPARSER, mfi.node), f"griffe section kinds for {pat}: {sorted(want)}; consulted: {sorted(used)}",
+                    f"the documentation of a {role} is not searched in sections of kind {missing} (e.g. numpydoc 'Other Parameters', Google 'Keyword Args'): its text never reaches the stub")
+        else:
+            col.ok("C13.SECTION-KINDS", key, repo.loc(DOCPARSER, mfi.node), f"all griffe section kinds for {pat} are consulted: {sorted(want)}")
+    brk = [n for n in ast.walk(mfi.node) if isinstance(n, ast.Break)]
+    key = f"{DOCPARSER}::{DP}._get_matching_docstrings::no-early-exit"
+    if brk:
+        col.bad("C13.SECTION-KINDS", key, repo.loc(DOCPARSER, brk[0]), "the section search stops at the first matching section",
+                "only the first matching section of a docstring is searched: an element documented in a later section of the same or a related kind loses its text")
+    else:
+        col.ok("C13.SECTION-KINDS", key, repo.loc(DOCPARSER, mfi.node), "every section of the docstring is inspected")
+
+    # ------------------------------------------------------------------ RESULT-DOC-NAME
+    rdfi = repo.function(GEN, f"{GENCLS}._create_sds_docstring")
+    rit = ctx.interp(rdfi)
+    fn_node = Obj("Function", (("result_docstrings", Sym("node.result_docstrings")), ("parameters", ListV(())), ("name", Sym("node.name"))))
+    rit.run_function(rdfi, {"self": Sym("self"), "docstring": Sym("docstring"), "indentations": Sym("ind"), "node": fn_node}, gen_state())
+    rl = find_loops(rit, rdfi, lambda v: sym_is(v, "node.result_docstrings"))
+    if len(rl) != 1:
+        raise AnalysisError("result loop of _create_sds_docstring not found")
+    rnode, _, _, rentry = rl[0]
+    for named in (True, False):
+        for described in (True, False):
+            el = Obj("ResultDocstring", (("name", Const("res") if named else Const("")), ("description", Const("text") if described else Const("")), ("type", Sym("R.type"))))
+            outs = run_body(rit, rnode, rentry.clone(), el)
+            draws = {sum(1 for e in new_effects(o, rentry) if e.kind == "call" and e.target == "next") for o in outs if o.kind != "raise"}
+            want = {0} if named else {1}
+            key = f"{GEN}::{GENCLS}._create_sds_docstring::result-name::named={named},described={described}"
+            if draws == want:
+                col.ok("C13.RESULT-DOC-NAME", key, repo.loc(GEN, rnode), f"generated names drawn per iteration: {sorted(draws)}")
+            else:
+                col.bad("C13.RESULT-DOC-NAME", key, repo.loc(GEN, rnode), f"generated names drawn per iteration: {sorted(draws)}, reference {sorted(want)}",
+                        f"for a result that is {'named' if named else 'unnamed'} and {'described' if described else 'not described'} the @result loop draws {sorted(draws)} generated name(s) instead of {sorted(want)}: "
+                        f"the numbering of the documented results drifts from the numbering of the signature (e.g. 'Returns: int / str: text' documents the text as result_1)")
+
     # ------------------------------------------------------------------ ACCUMULATE
     for gname in ("get_class_documentation", "get_function_documentation"):
         gfi2 = pci.methods[gname]
@@ -308,6 +366,9 @@ def check(ctx: Ctx, col: Collector, tier: str) -> None:
             reps = [x for name, v in o.env.items() if isinstance(v, (StrT,)) and entry.env.get(name) != v for x in walk_av(v) if isinstance(x, App) and x.func == ".replace"]
             if len(reps) != 1 or reps[0].args[0] != Sym("LINE") or reps[0].args[1] != Const(prompt):
                 probs.append(f"line is rewritten by {[repr(r) for r in reps]}")
+            elif len(reps[0].args) < 4 or reps[0].args[3] != Const(1):
+                # str.replace without a count rewrites every occurrence, also those inside the code of the line
+                probs.append(f"every occurrence of '{prompt}' in the line is replaced (str.replace without count 1), not only the leading marker")
             elif any(isinstance(a, App) and a.func == ".replace" for a in reps[0].args):
                 probs.append("nested replacements")
         key = f"{GEN}::{GENCLS}._create_sds_docstring::example-line::{prompt}"
